@@ -55,6 +55,73 @@ def run(ctx):
     vmap_docs(ctx)
     builder_agreement(ctx)
     key_handling(ctx)
+    stored_h1_is_the_one_used(ctx)
+
+
+def stored_h1_is_the_one_used(ctx):
+    """KEYS-4.  A trial's _build_measurement_intermediates that replaces ham_data['h1'] (symmetrisation) and also stores
+    quantities computed from the one-body integrals (rot_h1 ...) must compute them from the h1 it stores: the energy mixes
+    rot_h1 with terms that read ham_data['h1'] afterwards, and the other walker representation (unrestricted trial, whose
+    builder symmetrises first) is compared with it.  Positive witness: a stored value still depends on the *incoming* h1
+    after every occurrence of the stored h1 (whole or per spin block) has been taken out."""
+    from ..symex import substitute, subterms, strip_wrappers
+    p = ctx.p
+    hd = sym("ham_data")
+    h_in = getitem(hd, const("h1"))
+    seen = set()
+    for cq in p.subclasses("wavefunctions.wave_function", include_self=False):
+        fi = p.lookup_method(cq, "_build_measurement_intermediates")
+        if fi is None or fi.node is None or fi.qualname in seen or fi.is_abstract:
+            continue
+        seen.add(fi.qualname)
+        ev = Evaluator(p)
+        try:
+            R = ev.result(ev.eval_function(fi, self_class=cq))
+        except Exception:  # noqa
+            continue
+        if R is None:
+            continue
+        h_out = strip_wrappers(getitem(R, const("h1")))
+        if h_out is h_in or (h_out.op == "getitem" and h_out.args[0] is R):
+            continue                      # h1 is not rewritten by this builder
+        marks = {h_out: sym("__stored_h1__")}
+        for s_ in (0, 1):
+            c_ = strip_wrappers(getitem(h_out, const(s_)))
+            if c_ is not strip_wrappers(getitem(h_in, const(s_))):
+                marks[c_] = sym(f"__stored_h1_{s_}__")
+        ks = ctx_keys_written(R, hd)
+        bad = []
+        for k in ks:
+            if k == "h1":
+                continue
+            v = getitem(R, const(k))
+            if v.op == "getitem" and v.args[0] is R:
+                continue
+            v2 = substitute(v, marks)
+            uses_stored = v2 is not v
+            if any(x is h_in for x in subterms(v2)) and any(x is h_in for x in subterms(v)):
+                # reads the incoming integrals outside the stored ones
+                bad.append((k, uses_stored))
+        if not ks:
+            continue
+        ctx.ob("KEYS-4", f"{fi.qualname}: what it stores next to the rewritten h1 is computed from that h1", not bad,
+               "; ".join(f"'{k}' reads the incoming ham_data['h1'], not the one stored" for k, _ in bad[:3]) or
+               f"keys {sorted(ks)} read h1 only through the stored value", fi)
+
+
+def ctx_keys_written(R, hd):
+    """string keys stored on top of the incoming dictionary in the builder's result"""
+    from ..symex import strip_wrappers
+    out = []
+    t = strip_wrappers(R)
+    n = 0
+    while t.op == "setitem" and n < 200:
+        k = t.args[1]
+        if k.op == "const" and isinstance(k.args[0], str) and k.args[0] not in out:
+            out.append(k.args[0])
+        t = strip_wrappers(t.args[0])
+        n += 1
+    return out if t is hd else []
 
 
 def key_handling(ctx):
